@@ -15,7 +15,7 @@ func init() {
 		Explanation: "(a) on every path of the two constraint front-ends (ParseCardConstrs, ParsePBConstrs) the panicking constructors are reached only with their precondition established (1 <= card, card <= len(lits) for cardinality constraints), so trivially true / trivially false constraints are handled and not rejected; " +
 			"(b) in every scan loop that may keep its cursor in place (parse-time simplifiers, AppendClause, GtEq) each trip round the loop advances the cursor or shrinks what is scanned, so every literal is accounted for exactly once.",
 		NotDecided: "the normalisation arithmetic, slack-based propagation, watch maintenance and the search itself; nothing is executed.",
-		Rules:      []ruleFn{ruleR2_1, ruleR2_2, ruleR2_3, ruleR2_4, ruleR2_5, ruleR2_6, ruleR2_7, ruleR2_8, ruleR2_9, ruleR9_7},
+		Rules:      []ruleFn{ruleR2_1, ruleR2_2, ruleR2_3, ruleR2_4, ruleR2_5, ruleR2_6, ruleR2_7, ruleR2_8, ruleR2_9, ruleR9_7, ruleR2_10},
 		Fixtures:   []func(*World) []string{fixtureE8, fixtureR2_2},
 	})
 }
